@@ -329,6 +329,21 @@ def rule3(ctx, rep):
         ws = [n for n in f.own_nodes() if isinstance(n, ast.While)]
         ok = any(wsa.QUE in {prog.resolve_in(x, f) for x in ast.walk(w.test) if isinstance(x, (ast.Name, ast.Attribute))} for w in ws)
         r.check(ok, f'{f.qname}:polls-que', where(f), 'poll loop condition reads schedule.que', 'the queue-empty poller does not read schedule.que')
+        # ... and reads the live binding on every iteration (organize / build rebind the module attribute): same analysis
+        # as R-C12-2, added after seeded change C04-4
+        from . import c12 as _c12
+
+        for pq in ('dawgie.pl.state.FSM.is_todo_done', 'dawgie.pl.state.FSM.is_doing_done', 'dawgie.pl.state.FSM.is_crew_done'):
+            raw = prog.func(pq)
+            r.instance()
+            stale = _c12._stale_locals(prog, raw)
+            r.check(
+                not stale,
+                f'{pq}:live-condition',
+                where(raw, stale[0][0] if stale else None),
+                'the polling condition is re-evaluated per iteration',
+                f'{pq} polls on ' + '; '.join(f'local "{n}" bound once before the loop to {d}' for _l, n, d in stale) + ': the observer never sees the queue drain',
+            )
         for q in ('dawgie.pl.schedule.view_todo', 'dawgie.pl.schedule.view_doing'):
             g = prog.nfunc(q)
             rep.analysed(g)
